@@ -153,6 +153,7 @@ class Env:
         self.inl.expand = self.sy.expand
         self.park_flags = None    # flags the loop thread has set on every path into wait() and clears only after it: reading one
                                   # false while holding the mutex proves that the thread is not blocked
+        self.body_fields = set()  # members of the shared state that hold the user body (std::function)
         self.carriers = {}        # constructor instantiation -> declarations that carry its user functor
         self.gone_flags = set()   # flags the loop thread stores before it gives up its thread while the AsyncLoop lives
         self.deferred = None      # std::function member of AsyncLoop that (re)launches the loop closure
@@ -320,11 +321,17 @@ class C03Hooks(Hooks):
         self.found.und(self.rule, msg, n)
 
 
+def carrier_fields(fparam):
+    return {x[1:] for x in fparam if isinstance(x, tuple) and x and x[0] == 'F'} if isinstance(fparam, (set, frozenset)) else set()
+
+
 def is_body_call(tu, n, fparam):
     """a call that receives the user functor (constructor parameter, captured, or a helper parameter bound to it) as
     callee object or as an argument (calls to helpers defined in AsyncLoop.h are followed before this is asked)"""
     if n.get('kind') not in CALLS:
         return False
+    if tu.sd(n).get('q') in ('std::move', 'std::forward') or last(tu.sd(n).get('q')) == 'operator=':
+        return False                # handing the functor on / storing it is not calling it
     for k in tu.kids(n):
         k0 = tu.strip(k, casts=True)
         if k0 is None:
@@ -333,6 +340,8 @@ def is_body_call(tu, n, fparam):
             return True
         if k0.get('kind') == 'MemberExpr' and tu.kids(k0) and refs_decl(tu, tu.kids(k0)[0], fparam):
             return True
+        if k0.get('kind') == 'MemberExpr' and 'fi' in tu.sd(k0) and (tu.sd(k0).get('rec'), k0.get('name')) in carrier_fields(fparam):
+            return True             # the body lives in a member of the shared state (std::function) and is called through it
     return False
 
 
@@ -422,6 +431,16 @@ def functor_carriers(E, f):
             for x in tu.walk(tu.body(fn)):
                 if 'id' not in x:
                     continue
+                # `state->body = <the functor>`: a member of the shared state becomes a carrier
+                if x.get('kind') in ('CXXOperatorCallExpr', 'BinaryOperator') and (x.get('opcode') == '=' or last(tu.sd(x).get('q')) == 'operator='):
+                    ks_ = tu.kids(x)
+                    lhs, rhs = (ks_[1], ks_[2]) if x.get('kind') == 'CXXOperatorCallExpr' and len(ks_) == 3 else (ks_[0], ks_[-1]) if len(ks_) >= 2 else (None, None)
+                    fl_ = E.sy.field(lhs) if lhs is not None else None
+                    if fl_ is not None and fl_[0] == DATA and ('F',) + fl_ not in carriers and rhs is not None and \
+                            any((y.get('kind') == 'DeclRefExpr' and y.get('referencedDecl', {}).get('id') in carriers) or
+                                (y.get('kind') == 'LambdaExpr' and y.get('id') in wrappers) for y in tu.walk(rhs)):
+                        carriers.add(('F',) + fl_)
+                        changed = True
                 cf = E.inl.callee(x)
                 if cf is None:
                     continue
@@ -582,13 +601,28 @@ def predicate_enabling(E, pred_expr):
 # ======================================================================================================
 #  R-C03-1 (loop side), R-C03-2, wait sites of R-C03-3: the loop closure
 # ======================================================================================================
-def local_copy(tu, n, toks):
-    """propagate value tokens through `bool r = <load>;` and `r = <load>;`"""
+def unnegate(tu, e):
+    """(expression under any number of `!`, odd number of negations?)"""
+    e = tu.strip(e, casts=True)
+    neg = False
+    while e is not None and e.get('kind') == 'UnaryOperator' and e.get('opcode') == '!':
+        neg = not neg
+        e = tu.strip(tu.kids(e)[0], casts=True)
+    return e, neg
+
+
+def local_copy(tu, n, toks, alias_pol=None):
+    """propagate value tokens through `bool r = <load>;` and `r = <load>;` (also `r = !<load>` when alias_pol is given: the
+    variable then carries the tokens with inverted truth)"""
     k = n.get('kind')
     if k == 'DeclStmt':
         for v in tu.kids(n):
             if v.get('kind') == 'VarDecl' and tu.kids(v):
                 src = tu.strip(tu.kids(v)[-1], casts=True)
+                if alias_pol is not None and src is not None:
+                    src, neg = unnegate(tu, src)
+                    if src is not None and any(t[0] == src.get('id') for t in toks):
+                        alias_pol[v['id']] = (not neg) if alias_pol.get(src.get('id'), True) else neg
                 if src is not None:
                     add = {(v['id'],) + t[1:] for t in toks if t[0] == src.get('id')}
                     if add:
@@ -599,6 +633,10 @@ def local_copy(tu, n, toks):
         if lhs is not None and lhs.get('kind') == 'DeclRefExpr':
             var = lhs.get('referencedDecl', {}).get('id')
             src = tu.strip(tu.kids(n)[1], casts=True)
+            if alias_pol is not None and src is not None:
+                src, neg = unnegate(tu, src)
+                if src is not None and any(t[0] == src.get('id') for t in toks):
+                    alias_pol[var] = (not neg) if alias_pol.get(src.get('id'), True) else neg
             keep = {t for t in toks if t[0] != var}
             if src is not None:
                 keep |= {(var,) + t[1:] for t in toks if t[0] == src.get('id')}
@@ -644,6 +682,7 @@ def check_loop_closure(E, f, lam, op):
     ctx, tu, sy = E.ctx, E.tu, E.sy
     g = tu.cfg(op)
     E.fids = set(E.carriers.get(f['id']) or {f['params'][0]['id']})
+    E.body_fields |= carrier_fields(E.fids)
     fparam = E.fids
     found = Found(E.inl)
     cur = {}
@@ -1054,7 +1093,7 @@ def check_signals(E, f, label, fnkey):
         n = tu.node(e[1]) if e[0] == 'S' else None
         if ev is None:
             if n is not None:
-                toks = local_copy(tu, n, toks)
+                toks = local_copy(tu, n, toks, E.alias_pol)
                 if n.get('kind') == 'DeclStmt':
                     for v_ in tu.kids(n):
                         if v_.get('kind') == 'VarDecl' and tu.kids(v_) and sy.const_bool(tu.kids(v_)[-1]) is not None and \
@@ -1066,6 +1105,13 @@ def check_signals(E, f, label, fnkey):
                     bv = frozenset({p_ for p_ in bv if p_[0] != var} | ({(var, cb)} if cb is not None else set()))
             return [(locks, known, owe, nscope, cs, toks, bv)]
         kind = ev[0]
+        if kind == 'rmw' and ev[2] == 'exchange' and (sy.atomic_op(ev[3]) or {}).get('value') is not None and ev[1] in FLAGS:
+            a_ = sy.atomic_op(ev[3])
+            ev = ('store', ev[1], a_['value'], a_.get('order'), ev[3])     # exchange(constant): a store as far as waiters go
+            kind = 'store'
+            # ... whose result tells whether anything changed: if the old value equals the new one the store was a no-op
+            toks = addtoks(toks, ev[4]['id'], {(ev[4]['id'], ('xold', ev[1][1], a_['value']), cs)})
+            st = (locks, known, owe, nscope, cs, toks, bv)
         if kind in ('locks', 'unlock-scope', 'lk-unlock', 'lk-lock', 'm-lock', 'm-unlock', 'lk-other', 'm-other'):
             locks2, known, prob = LockState.apply(locks, known, ev)
             if prob:
@@ -1119,6 +1165,10 @@ def check_signals(E, f, label, fnkey):
         if atom.get('kind') == 'DeclRefExpr' and dict(bv).get(tid) is not None and dict(bv)[tid] != truth:
             return []               # a local bool with a known constant value cannot take the other branch
         for t in toks:
+            if t[0] == tid and isinstance(t[1], tuple) and t[1][0] == 'xold':
+                if truth == t[1][2]:
+                    owe = frozenset(o for o in owe if o[0] != t[1][1])      # the exchange did not change the flag
+                continue
             if t[0] == tid and not truth:
                 # "nobody is parked", read in critical section t[2]: a store made in that same critical section needs no notify -
                 # a waiter that has not blocked yet evaluates its predicate under the mutex after this section and sees the store
@@ -1185,6 +1235,9 @@ def check_start(E):
             if fld == INSIDE:
                 found.viol(R1, FN, 'writes-insideLoopBody', 'start() writes insideLoopBody, which belongs to the loop thread', node)
             return [st]
+        if ev[0] == 'rmw' and ev[1] == RUN and ev[2] == 'exchange' and (sy.atomic_op(ev[3]) or {}).get('value') is True:
+            # exchange(true): sets the flag; the result is the previous value
+            return [(None, True, frozenset(t for t in toks if t[0] == '$bumped'), False, False, False)]
         if ev[0] == 'load' and ev[1] == RUN:
             return [(runv, setf, addtoks(toks, ev[3]['id'], {(ev[3]['id'], 'run')}), tested, needs, did)]
         if ev[0] == 'load':
@@ -1289,6 +1342,12 @@ def check_dtor(E):
             if fld == INSIDE:
                 found.viol(R1, FN, 'writes-insideLoopBody', 'the destructor writes insideLoopBody, which belongs to the loop thread',
                            node)
+            if fld in E.body_fields and j != 'J':
+                found.viol(R4, FN, 'body-released-while-loop-may-run', 'the destructor overwrites / releases %s - the callable the loop '
+                           'thread invokes - on a path where that thread was not joined (TASK launch: nothing to join): the task may '
+                           'be inside the body, or about to call it, while the std::function and everything it captured are destroyed '
+                           '(use after free). The shared state is kept alive by the task precisely so that it can finish'
+                           % fld[1], node)
             return [st]
         if kind == 'notify' and ev[1] == CV:
             return [(locks, known, cleared, False, nscope or LockState.holds(locks, MTX), j, toks)]
@@ -2047,6 +2106,72 @@ def check_shared_words(E, closures):
                % (shared or 'none', len(writers)), FILE)
 
 
+def check_schedule_backend(E):
+    """R-C03-4 (TASK launch): the closure AsyncLoop hands to tasking::schedule does not return while the loop lives (it runs the
+    body or parks).  The back end must therefore not funnel all scheduled closures through an execution resource of fixed small
+    capacity: a tbb::task_arena with static storage duration and an explicit constant max_concurrency is the recognised-wrong
+    form (with capacity c, the (c+1)-th TASK loop never runs: start() is never honoured)."""
+    ctx, tu, sy = E.ctx, E.tu, E.sy
+    impls = [f for f in tu.functions.values() if not f['dep'] and tu.cfg(f) is not None and
+             f['q'].startswith('rkcommon::tasking::detail::schedule_impl')]
+    if not impls:
+        return
+    inl = Inliner(tu, lambda cf: tu.fn_file(cf).startswith('rkcommon/tasking/'))
+
+    def static_var(e, depth=0):
+        e = tu.strip(e, casts=True) if e is not None else None
+        if e is None or depth > 6:
+            return None
+        k = e.get('kind')
+        if k == 'DeclRefExpr':
+            d = tu.node(e.get('referencedDecl', {}).get('id'))
+            if d is not None and d.get('kind') == 'VarDecl':
+                par = tu.par(d)
+                if d.get('storageClass') == 'static' or (par is not None and par.get('kind') in ('NamespaceDecl', 'TranslationUnitDecl')):
+                    return d
+            return None
+        if k == 'MemberExpr' and tu.kids(e):
+            return static_var(tu.kids(e)[0], depth + 1)
+        if k in CALLS:
+            cf = tu.callee_fn(e)
+            body = tu.body(cf) if cf is not None else None
+            rets = [x for x in tu.walk(body) if x.get('kind') == 'ReturnStmt' and tu.kids(x)] if body is not None else []
+            vs = [static_var(tu.kids(x)[0], depth + 1) for x in rets]
+            return vs[0] if vs and all(v is not None for v in vs) else None
+        return None
+
+    seen = set()
+    for f in impls:
+        for fn in inl.reachable_fns(f):
+            for _b, _i, n in tu.cfg(fn).stmts():
+                if n.get('kind') != 'CXXMemberCallExpr' or not (tu.sd(n).get('q') or '').endswith('task_arena::enqueue') or n['id'] in seen:
+                    continue
+                seen.add(n['id'])
+                E.count(R4)
+                _s, obj, _a = tu.call_parts(n)
+                d = static_var(obj) if obj is not None else None
+                inst = 'tasking::schedule back end: %s [%s]' % (tu.show(n)[:60], tu.config)
+                cap = None
+                if d is not None and tu.kids(d):
+                    ce = tu.strip(tu.kids(d)[-1])
+                    args = [a for a in tu.kids(ce) if (tu.strip(a) or {}).get('kind') != 'CXXDefaultArgExpr'] if ce is not None else []
+                    if ce is not None and ce.get('kind') in ('CXXConstructExpr', 'CXXTemporaryObjectExpr') and args:
+                        try:
+                            cap = int(tu.sd(tu.strip(args[0], casts=True)).get('cv'))
+                        except (TypeError, ValueError):
+                            cap = None
+                if d is not None and cap is not None and cap > 0:
+                    ctx.violation(R4, inst, 'every scheduled closure is enqueued into the one arena `%s`, which has static storage duration '
+                                  'and max_concurrency %d. The closure AsyncLoop schedules does not return while its loop lives (it runs '
+                                  'the body or parks), so it occupies a slot for good: with more than %d TASK-launched loops alive the '
+                                  'later ones are never run - their start() is never honoured' % (d.get('name'), cap, cap), tu.loc(n),
+                                  key='%s|%s|schedule_impl|shared-arena-of-fixed-capacity' % (R4, tu.fn_file(fn)),
+                                  path=['%s: %s' % (tu.loc(n), tu.show(n))])
+                else:
+                    ctx.ok(R4, inst, 'enqueued into %s' % ('the caller\'s / a per-call arena' if d is None else
+                                                          'a shared arena without a fixed small capacity'), tu.loc(n))
+
+
 def check_initial(E):
     """R-C03-3: threadShouldBeAlive starts true (otherwise the loop thread exits at once and start() never resumes anything)"""
     ctx, tu, sy = E.ctx, E.tu, E.sy
@@ -2123,6 +2248,7 @@ def check_tu(ctx, tu):
         for lam, op in cl:
             check_loop_exit(E, f, lam, op)
     check_acks(E, per_ctor)
+    check_schedule_backend(E)
     check_shared_words(E, per_ctor)
     if per_ctor and E.launch_kinds != {'thread', 'task'}:
         ctx.broken('R-C03-4: expected both launch methods (std::thread member and tasking::schedule) in the constructor, found %s'
